@@ -6,6 +6,7 @@ def lib_hroom_violations : Nat := 0
 def lib_mono_violations : Nat := 0
 def lib_sample_messages : Nat := 560
 def lib_sample_records : Nat := 19500
+def lib_writesall_violations : Nat := 0
 def libbits_single : List Nat := [0, 32768, 1024, 512, 256, 128, 64, 32, 16, 2048, 4096, 8192, 16384, 32768, 0, 1, 2, 4, 8, 0, 0, 15]
 def max_pooled_compression_entries : Nat := 64
 def msgbits_single : List Nat := [0, 32768, 1024, 512, 256, 128, 64, 32, 16, 2048, 4096, 8192, 16384, 32768, 0, 1, 2, 4, 8, 0, 0, 15]
